@@ -36,6 +36,12 @@
     good_char_set P a-b          => 0/1
     merge P1 P2                  => P
     merge_list {P1;P2;..}        => P
+    merge_list_iter kind {..}    => P             the same list through a filter / from_fn / chain iterator
+    clone P | clone_from Q P     => P             (Q = the overwritten target)
+    class_ids_nth P k j          => cid | none    k calls of next, then nth(j)
+    picks_nth P k j              => n | none
+    class_ids_step P s           => [cid,..]      class_ids().step_by(s)
+    picks_skip P k               => [n,..]        picks().skip(k)
 
   Spec column: `class_of_char`, `interval_cover`, `class_of_set`, `good_char_set`, `try_from_list`
   are printed with the independent linear-scan specification of Model/Spec/CharPartition.lean
@@ -144,6 +150,27 @@ def handle (op : String) (args : List String) : Option Reply :=
       let l ← rCPs l
       -- Props/C12 `merge_list_fuel_sufficient`
       okProved (match mergeList? l with | some r => pCP r | none => "FUEL")
+  -- the list argument is `impl Iterator`: the result may not depend on the iterator's shape
+  | "merge_list_iter", [_, l] => do
+      let l ← rCPs l
+      okProved (match mergeList? l with | some r => pCP r | none => "FUEL")
+  -- copies are the partition copied (intervals and complement witness)
+  | "clone", [p] => do let p ← rCP p; okProved (pCP p)
+  | "clone_from", [_, p] => do let p ← rCP p; okProved (pCP p)
+  -- `Iterator::nth(j)` after k calls of `next`: element k+j of the enumeration
+  | "class_ids_nth", [p, k, j] => do
+      let p ← rCP p; let k ← rNat k; let j ← rNat j
+      okProved (match p.classIds[k + j]? with | some c => pCid c | none => "none")
+  | "picks_nth", [p, k, j] => do
+      let p ← rCP p; let k ← rNat k; let j ← rNat j
+      okProved (match p.picks[k + j]? with | some c => pNat c | none => "none")
+  | "class_ids_step", [p, st] => do
+      let p ← rCP p; let st ← rNat st
+      if st == 0 then none else
+      okProved (pList pCid (((List.range p.classIds.length).filter (· % st == 0)).filterMap (p.classIds[·]?)))
+  | "picks_skip", [p, k] => do
+      let p ← rCP p; let k ← rNat k
+      okProved (pNats (p.picks.drop k))
   -- the alphabet tiled by blocks of width w: pairwise disjoint, so `try_from_iter` succeeds
   -- (`try_from_list_ok_iff`) with the blocks in increasing order (`wf_try_from_list`: sorted
   -- permutation of the input) and an empty complementary class (`empty_complement_iff`); the
